@@ -50,3 +50,10 @@ Proof. vm_compute. reflexivity. Qed.
 Lemma from_import_history_independent_l : forall p n sub, In (p, n, sub) submodule_files ->
   forall after, from_import (lookup_binding pkg_bindings p n) after sub = sub.
 Proof. exact (from_import_history_independent_gen pkg_bindings submodule_files no_shadowed_submodule_l). Qed.
+
+Lemma submodule_uses_locally_covered_l : locally_covered_b events chain startup checked = true.
+Proof. vm_compute. reflexivity. Qed.
+
+Lemma runtime_submodule_uses_locally_covered_l :
+  fn_uses_covered_b events chain startup fn_uses fn_imports = true.
+Proof. vm_compute. reflexivity. Qed.
